@@ -154,6 +154,7 @@ g_constant_info_get_value (GIConstantInfo *info,
 	      value->v_int32 = *(gint32*)&rinfo->typelib->data[blob->offset];
 	      break;
 	    case GI_TYPE_TAG_UINT32:
+	    case GI_TYPE_TAG_UNICHAR:
 	      value->v_uint32 = *(guint32*)&rinfo->typelib->data[blob->offset];
 	      break;
 	    case GI_TYPE_TAG_INT64:
